@@ -33,8 +33,8 @@ META = dict(
 
 # statement kinds (pgen codes): Long: 3, Hang, OvA, OvB, SetOut, Pause: 0.3s, Hold: 0.3s, Simulate: In1 = 0, Wait: 0.3s,
 # Mark, Boom: 2 (fails in its second exec -> 'failed' item), Watch: In1 > 1 {...}
-KINDS = ["L", "H", "A", "B", "S", "P", "Ho", "SiI", "W", "M", "Boom", "WaI"]
-KINDS3 = ["L", "H", "A", "B", "P", "SiI", "M", "WaI"]
+KINDS = ["L", "H", "A", "B", "S", "P", "Ho", "SiI", "SiL", "W", "M", "Boom", "WaI"]
+KINDS3 = ["L", "H", "A", "B", "P", "SiI", "SiL", "M", "WaI"]
 KINDS4 = ["L", "A", "B", "P", "SiI", "WaI"]
 T_REQ = 22            # last tick before which a user request is issued
 AFTER = 16            # ticks observed after a Restart completed (compared with the fresh run)
